@@ -331,6 +331,8 @@ C10_CompletedHeldNothing == (Step /\ E.op # "removeApp") => \A a \in AppsOf(Pre)
       (\E i \in 1..Len(Post.done) : Post.done[i] = a \o ":Completed") =>
          \* (what this very step released, e.g. with its node, does not count)
          /\ {k \in DOMAIN Pre.apps[a].allocs : ~Pre.apps[a].allocs[k].ph /\ ~\E m \in Msgs(l) : m.t = "release" /\ m.key = k} = {}
+         \* ... nor the real half of a replacement that was still waiting for its confirmation
+         /\ InFlightRealOf(Pre, a) = {}
          /\ (E.op \notin {"release", "releaseAll", "removeNode"} => {k \in DOMAIN Pre.apps[a].asks : ~Pre.apps[a].asks[k].allocated} = {})
 C10_LiveHaveQueue == LiveAppsHaveQueue(St(l))
 C10_StateTimer == (Step /\ E.op = "fireStateTimer" /\ E.armed /\ E.was = "Completing" /\ E.app \in AppsOf(Pre)) =>
